@@ -17,7 +17,7 @@ enum Event {
     Send(int, Option<Seq<u8>>),     // sent on channel c
     Work,                           // the rule's own work: every file-system mutation and the command of handle_rule_node / handle_source_only_node
 }
-struct Net { log: Seq<Event> }
+struct Net { log: Seq<Event>, next: int }      // next: the id the next channel created gets
 
 // ---------- types copied from the repo ----------
 //@ extract system/mod.rs enum SystemError
@@ -371,5 +371,249 @@ proof fn node_cut(a: Seq<Event>, l1: Seq<Event>, c: Seq<Event>, n: int)
     requires extends(a, l1), l1.len() == a.len() + n, extends(l1, c)
     ensures after_recvs(a, c, n) == l1
 {}
+
+// ================= channel wiring: ChannelPack::new =================
+// ASSUMED: `mpsc::channel()` creates a fresh channel; the ghost id of the pair is the creation counter
+#[verifier::external_body]
+fn mpsc_channel(Tracked(net): Tracked<&mut Net>) -> (r: (Sender<Packet>, Receiver<Packet>))
+    ensures r.0.id() == old(net).next && r.1.id() == old(net).next, final(net).next == old(net).next + 1, final(net).log == old(net).log
+{ unimplemented!() }
+struct ChannelPack { leaves: Vec<(String, Vec<Sender<Packet>>)>, nodes: Vec<(Node, Vec<(usize, Sender<Packet>)>, Vec<Receiver<Packet>>)> }
+// R4: the two `into_iter().map(..).collect()` initialisations
+#[verifier::external_body]
+fn init_leaves(leaves: Vec<String>) -> (r: Vec<(String, Vec<Sender<Packet>>)>)
+    ensures r@.len() == leaves@.len(), forall|l: int| 0 <= l < leaves@.len() ==> (#[trigger] r@[l]).0 == leaves@[l] && r@[l].1@.len() == 0
+{ unimplemented!() }
+#[verifier::external_body]
+fn init_nodes(nodes: Vec<Node>) -> (r: Vec<(Node, Vec<(usize, Sender<Packet>)>, Vec<Receiver<Packet>>)>)
+    ensures r@.len() == nodes@.len(), forall|n: int| 0 <= n < nodes@.len() ==> (#[trigger] r@[n]).0 == nodes@[n] && r@[n].1@.len() == 0 && r@[n].2@.len() == 0
+{ unimplemented!() }
+
+// the plan's sources: srcs[n][k]
+spec fn srcs_of(nodes: Seq<Node>) -> Seq<Seq<SourceIndex>> { nodes.map_values(|n: Node| n.source_indices@) }
+spec fn pack_ok(srcs: Seq<Seq<SourceIndex>>, n_leaves: int) -> bool {
+    forall|n: int, k: int| 0 <= n < srcs.len() && 0 <= k < srcs[n].len() ==> match #[trigger] srcs[n][k] { SourceIndex::Leaf(i) => i < n_leaves, SourceIndex::Pair(i, _) => i < srcs.len() }
+}
+// channels are created in (node, source) order: the channel of source k of node n has id base + off(n) + k
+spec fn off(srcs: Seq<Seq<SourceIndex>>, n: int) -> int decreases n { if n <= 0 { 0 } else { off(srcs, n - 1) + srcs[n - 1].len() } }
+spec fn chan_id(srcs: Seq<Seq<SourceIndex>>, base: int, n: int, k: int) -> int { base + off(srcs, n) + k }
+spec fn is_leaf(s: SourceIndex, l: int) -> bool { match s { SourceIndex::Leaf(i) => i as int == l, _ => false } }
+// the sender ids leaf l holds after all sources before (n, k) were wired
+spec fn leaf_list(srcs: Seq<Seq<SourceIndex>>, base: int, l: int, n: int, k: int) -> Seq<int>
+    decreases n, k
+{
+    if k > 0 && 0 <= n < srcs.len() && k <= srcs[n].len() {
+        let prev = leaf_list(srcs, base, l, n, k - 1);
+        if is_leaf(srcs[n][k - 1], l) { prev.push(chan_id(srcs, base, n, k - 1)) } else { prev }
+    } else if n > 0 && k <= 0 { leaf_list(srcs, base, l, n - 1, srcs[n - 1].len() as int) } else { Seq::empty() }
+}
+// the (target number, sender id) pairs rule i holds after all sources before (n, k) were wired
+spec fn node_list(srcs: Seq<Seq<SourceIndex>>, base: int, i: int, n: int, k: int) -> Seq<(usize, int)>
+    decreases n, k
+{
+    if k > 0 && 0 <= n < srcs.len() && k <= srcs[n].len() {
+        let prev = node_list(srcs, base, i, n, k - 1);
+        match srcs[n][k - 1] { SourceIndex::Pair(j, sub) => if j == i { prev.push((sub, chan_id(srcs, base, n, k - 1))) } else { prev }, _ => prev }
+    } else if n > 0 && k <= 0 { node_list(srcs, base, i, n - 1, srcs[n - 1].len() as int) } else { Seq::empty() }
+}
+spec fn tagged(ss: Seq<(usize, Sender<Packet>)>) -> Seq<(usize, int)> { ss.map_values(|s: (usize, Sender<Packet>)| (s.0, s.1.id())) }
+// wiring state after all sources before (n, k): every list is exactly the expected one; the receivers of the nodes done so far are complete
+spec fn wired(leaves: Seq<(String, Vec<Sender<Packet>>)>, nodes: Seq<(Node, Vec<(usize, Sender<Packet>)>, Vec<Receiver<Packet>>)>, srcs: Seq<Seq<SourceIndex>>, base: int, n: int, k: int) -> bool {
+    &&& forall|l: int| 0 <= l < leaves.len() ==> sender_ids((#[trigger] leaves[l]).1@) == leaf_list(srcs, base, l, n, k)
+    &&& forall|i: int| 0 <= i < nodes.len() ==> tagged((#[trigger] nodes[i]).1@) == node_list(srcs, base, i, n, k)
+    &&& forall|m: int| 0 <= m < nodes.len() ==> (#[trigger] nodes[m]).2@.len() == (if m < n { srcs[m].len() as int } else if m == n { k } else { 0 })
+    &&& forall|m: int, j: int| 0 <= m < nodes.len() && 0 <= j < nodes[m].2@.len() ==> (#[trigger] nodes[m].2@[j]).id() == chan_id(srcs, base, m, j)
+}
+
+impl ChannelPack {
+//@ extract build.rs impl /^ChannelPack$/ fn new
+//@ props C03 C05 C01
+//@ attr #[verifier::loop_isolation(false)]
+//@ ret res
+//@ param Tracked(net): Tracked<&mut Net>
+//@ rewrite 1 /node_pack\.leaves\.into_iter\(\)\.map\(\|leaf\| \{\(leaf, vec!\[\]\)\}\)\.collect\(\)/ => init_leaves(node_pack.leaves)
+//@ rewrite 1 /node_pack\.nodes\.into_iter\(\)\.map\(\|node\| \{\(node, vec!\[\], vec!\[\]\)\}\)\.collect\(\)/ => init_nodes(node_pack.nodes)
+//@ rewrite 1 /mpsc::channel\(\)/ => mpsc_channel(Tracked(net))
+//@ spec
+        requires pack_ok(srcs_of(node_pack.nodes@), node_pack.leaves@.len() as int),      // from the sorter: O-S-binding
+        ensures
+            // the same leaves and nodes, and: receiver k of node n is channel (n, k); its sender sits exactly in the list named by source
+            // index k of node n -- leaf i's list for Leaf(i), rule i's list tagged `sub` for Pair(i, sub) -- in creation order       //# O-E-wiring [C03,C05,C01]
+            res.leaves@.len() == node_pack.leaves@.len(), res.nodes@.len() == node_pack.nodes@.len(),
+            forall|l: int| 0 <= l < res.leaves@.len() ==> (#[trigger] res.leaves@[l]).0 == node_pack.leaves@[l],
+            forall|n: int| 0 <= n < res.nodes@.len() ==> (#[trigger] res.nodes@[n]).0 == node_pack.nodes@[n],
+            wired(res.leaves@, res.nodes@, srcs_of(node_pack.nodes@), old(net).next, node_pack.nodes@.len() as int, 0),
+            final(net).log == old(net).log,
+//@ hint start
+        let ghost srcs = srcs_of(node_pack.nodes@); let ghost base = net.next; let ghost nl = node_pack.leaves@.len() as int; let ghost nn = node_pack.nodes@.len() as int;
+        let ghost pn = node_pack.nodes@; let ghost pl = node_pack.leaves@;
+//@ hint before 1/1 /for node_index in 0\.\.nodes\.len\(\)/
+        proof {
+            assert forall|l: int| 0 <= l < leaves@.len() implies sender_ids((#[trigger] leaves@[l]).1@) == leaf_list(srcs, base, l, 0, 0) by { assert(sender_ids(leaves@[l].1@) =~= Seq::<int>::empty()); }
+            assert forall|i: int| 0 <= i < nodes@.len() implies tagged((#[trigger] nodes@[i]).1@) == node_list(srcs, base, i, 0, 0) by { assert(tagged(nodes@[i].1@) =~= Seq::<(usize, int)>::empty()); }
+        }
+//@ loop 1 invariant
+            invariant nodes@.len() == nn, leaves@.len() == nl, srcs.len() == nn,
+                forall|l: int| 0 <= l < nl ==> (#[trigger] leaves@[l]).0 == pl[l],
+                forall|n: int| 0 <= n < nn ==> (#[trigger] nodes@[n]).0 == pn[n],
+                wired(leaves@, nodes@, srcs, base, node_index as int, 0),
+                net.next == base + off(srcs, node_index as int), net.log == old(net).log,
+//@ loop 2 invariant
+                invariant nodes@.len() == nn, leaves@.len() == nl, srcs.len() == nn, node_index < nn,
+                    forall|l: int| 0 <= l < nl ==> (#[trigger] leaves@[l]).0 == pl[l],
+                    forall|n: int| 0 <= n < nn ==> (#[trigger] nodes@[n]).0 == pn[n],
+                    wired(leaves@, nodes@, srcs, base, node_index as int, source_indicies_index as int),
+                    net.next == base + off(srcs, node_index as int) + source_indicies_index, net.log == old(net).log,
+//@ hint before 1/1 /let \(sender, receiver\) : \(Sender<Packet>, Receiver<Packet>\) = mpsc::channel\(\);/
+                let ghost lv0 = leaves@; let ghost nv0 = nodes@; let ghost n0 = node_index as int; let ghost k0 = source_indicies_index as int;
+                proof { assert(srcs[n0] == pn[n0].source_indices@); assert(nodes@[n0].0 == pn[n0]); }
+//@ hint before 1/1 /nodes\[node_index\]\.2\.push\(receiver\);/
+                let ghost lv1 = leaves@; let ghost nv1 = nodes@;
+                proof {
+                    let cid = chan_id(srcs, base, n0, k0);
+                    assert(sender.id() == cid);
+                    match srcs[n0][k0] {
+                        SourceIndex::Leaf(i) => {
+                            assert(sender_ids(lv1[i as int].1@) =~= sender_ids(lv0[i as int].1@).push(cid));      //# O-E-wiring [C03,C05,C01]
+                            assert forall|l: int| 0 <= l < lv1.len() && l != i implies #[trigger] lv1[l] == lv0[l] by {}
+                            assert(nv1 == nv0);
+                        },
+                        SourceIndex::Pair(i, sub) => {
+                            assert(tagged(nv1[i as int].1@) =~= tagged(nv0[i as int].1@).push((sub, cid)));      //# O-E-wiring [C03,C05,C01]
+                            assert forall|m: int| 0 <= m < nv1.len() && m != i implies #[trigger] nv1[m] == nv0[m] by {}
+                            assert(lv1 == lv0);
+                        },
+                    }
+                }
+//@ hint after 1/1 /nodes\[node_index\]\.2\.push\(receiver\);/
+                proof {
+                    assert forall|m: int| 0 <= m < nodes@.len() implies (#[trigger] nodes@[m]).1@ == nv1[m].1@ by {}
+                    assert(leaves@ == lv1);
+                    assert forall|l: int| 0 <= l < leaves@.len() implies sender_ids((#[trigger] leaves@[l]).1@) == (if is_leaf(srcs[n0][k0], l) { sender_ids(lv0[l].1@).push(chan_id(srcs, base, n0, k0)) } else { sender_ids(lv0[l].1@) }) by {
+                        match srcs[n0][k0] { SourceIndex::Leaf(i) => { if l == i { } else { assert(lv1[l] == lv0[l]); } }, SourceIndex::Pair(i, sub) => { assert(lv1[l] == lv0[l]); } }
+                    }
+                    wired_step(lv0, nv0, leaves@, nodes@, srcs, base, n0, k0); }
+//@ hint after 1/1 /nodes\[node_index\]\.2\.push\(receiver\);\s*\}/
+            proof { wired_next_node(leaves@, nodes@, srcs, base, node_index as int); }
+//@ end
+}
+// wiring one more source keeps `wired`
+proof fn wired_step(lv0: Seq<(String, Vec<Sender<Packet>>)>, nv0: Seq<(Node, Vec<(usize, Sender<Packet>)>, Vec<Receiver<Packet>>)>,
+                    lv: Seq<(String, Vec<Sender<Packet>>)>, nv: Seq<(Node, Vec<(usize, Sender<Packet>)>, Vec<Receiver<Packet>>)>,
+                    srcs: Seq<Seq<SourceIndex>>, base: int, n: int, k: int)
+    requires wired(lv0, nv0, srcs, base, n, k), 0 <= n < srcs.len(), 0 <= k < srcs[n].len(), nv0.len() == srcs.len(), nv.len() == nv0.len(), lv.len() == lv0.len(),
+        // what the loop body did: one new sender with id chan_id(n,k) appended to the list the source names, one receiver with that id appended to node n
+        forall|l: int| 0 <= l < lv.len() ==> sender_ids((#[trigger] lv[l]).1@) == (if is_leaf(srcs[n][k], l) { sender_ids(lv0[l].1@).push(chan_id(srcs, base, n, k)) } else { sender_ids(lv0[l].1@) }),
+        forall|i: int| 0 <= i < nv.len() ==> tagged((#[trigger] nv[i]).1@) == (match srcs[n][k] { SourceIndex::Pair(j, sub) => if j == i { tagged(nv0[i].1@).push((sub, chan_id(srcs, base, n, k))) } else { tagged(nv0[i].1@) }, _ => tagged(nv0[i].1@) }),
+        forall|m: int| 0 <= m < nv.len() && m != n ==> (#[trigger] nv[m]).2@ == nv0[m].2@,
+        nv[n].2@.len() == nv0[n].2@.len() + 1, forall|j: int| 0 <= j < nv0[n].2@.len() ==> nv[n].2@[j] == nv0[n].2@[j], nv[n].2@[k].id() == chan_id(srcs, base, n, k),
+    ensures wired(lv, nv, srcs, base, n, k + 1)
+{
+    assert forall|m: int, j: int| 0 <= m < nv.len() && 0 <= j < nv[m].2@.len() implies (#[trigger] nv[m].2@[j]).id() == chan_id(srcs, base, m, j) by {
+        if m != n { assert(nv[m].2@ == nv0[m].2@); assert(nv0[m].2@[j].id() == chan_id(srcs, base, m, j)); }
+        else if j < nv0[n].2@.len() { assert(nv0[n].2@[j].id() == chan_id(srcs, base, n, j)); }
+    }
+}
+proof fn wired_next_node(lv: Seq<(String, Vec<Sender<Packet>>)>, nv: Seq<(Node, Vec<(usize, Sender<Packet>)>, Vec<Receiver<Packet>>)>, srcs: Seq<Seq<SourceIndex>>, base: int, n: int)
+    requires 0 <= n < srcs.len(), wired(lv, nv, srcs, base, n, srcs[n].len() as int) ensures wired(lv, nv, srcs, base, n + 1, 0)
+{}
+
+// ---- what `wired` means: the lists and the source slots correspond one to one ----
+spec fn is_pair(s: SourceIndex, i: int, sub: usize) -> bool { match s { SourceIndex::Pair(j, t) => j as int == i && t == sub, _ => false } }
+spec fn slot_before(srcs: Seq<Seq<SourceIndex>>, m: int, j: int, n: int, k: int) -> bool { 0 <= m < srcs.len() && 0 <= j < srcs[m].len() && (m < n || (m == n && j < k)) }
+spec fn pos_ok(srcs: Seq<Seq<SourceIndex>>, n: int, k: int) -> bool { 0 <= n <= srcs.len() && 0 <= k && (n < srcs.len() ==> k <= srcs[n].len()) && (n == srcs.len() ==> k == 0) }
+// distinct slots get distinct channels                                                                         //# O-E-wiring-injective [C03,C05]
+proof fn off_mono(srcs: Seq<Seq<SourceIndex>>, m: int, n: int)
+    requires 0 <= m < n <= srcs.len() ensures off(srcs, m) + srcs[m].len() <= off(srcs, n) decreases n - m
+{ if m + 1 < n { off_mono(srcs, m, n - 1); } }
+proof fn chan_id_injective(srcs: Seq<Seq<SourceIndex>>, base: int, m: int, j: int, n: int, k: int)
+    requires 0 <= m < srcs.len(), 0 <= j < srcs[m].len(), 0 <= n < srcs.len(), 0 <= k < srcs[n].len(), chan_id(srcs, base, m, j) == chan_id(srcs, base, n, k)
+    ensures m == n && j == k
+{ if m < n { off_mono(srcs, m, n); } else if n < m { off_mono(srcs, n, m); } }
+// every entry of rule i's list is the channel of a slot whose source index is Pair(i, tag)                      //# O-E-wiring-sound [C03,C05,C01]
+proof fn node_list_sound(srcs: Seq<Seq<SourceIndex>>, base: int, i: int, n: int, k: int, p: int)
+    requires pos_ok(srcs, n, k), 0 <= p < node_list(srcs, base, i, n, k).len()
+    ensures exists|m: int, j: int| slot_before(srcs, m, j, n, k) && is_pair(#[trigger] srcs[m][j], i, node_list(srcs, base, i, n, k)[p].0) && node_list(srcs, base, i, n, k)[p].1 == chan_id(srcs, base, m, j)
+    decreases n, k
+{
+    let cur = node_list(srcs, base, i, n, k);
+    if k > 0 && n < srcs.len() {
+        let prev = node_list(srcs, base, i, n, k - 1);
+        if p < prev.len() {
+            node_list_sound(srcs, base, i, n, k - 1, p);
+            let (m, j) = choose|m: int, j: int| slot_before(srcs, m, j, n, k - 1) && is_pair(#[trigger] srcs[m][j], i, prev[p].0) && prev[p].1 == chan_id(srcs, base, m, j);
+            assert(cur[p] == prev[p]);
+            assert(slot_before(srcs, m, j, n, k) && is_pair(srcs[m][j], i, cur[p].0));
+        } else {
+            assert(slot_before(srcs, n, k - 1, n, k) && is_pair(srcs[n][k - 1], i, cur[p].0));
+        }
+    } else if n > 0 && k <= 0 {
+        node_list_sound(srcs, base, i, n - 1, srcs[n - 1].len() as int, p);
+        let prev = node_list(srcs, base, i, n - 1, srcs[n - 1].len() as int);
+        let (m, j) = choose|m: int, j: int| slot_before(srcs, m, j, n - 1, srcs[n - 1].len() as int) && is_pair(#[trigger] srcs[m][j], i, prev[p].0) && prev[p].1 == chan_id(srcs, base, m, j);
+        assert(slot_before(srcs, m, j, n, k) && is_pair(srcs[m][j], i, cur[p].0));
+    }
+}
+// every slot whose source index is Pair(i, sub) has its channel in rule i's list, tagged sub                    //# O-E-wiring-complete [C03,C05,C01]
+proof fn node_list_complete(srcs: Seq<Seq<SourceIndex>>, base: int, i: int, n: int, k: int, m: int, j: int, sub: usize)
+    requires pos_ok(srcs, n, k), slot_before(srcs, m, j, n, k), is_pair(srcs[m][j], i, sub)
+    ensures exists|p: int| 0 <= p < node_list(srcs, base, i, n, k).len() && #[trigger] node_list(srcs, base, i, n, k)[p] == (sub, chan_id(srcs, base, m, j))
+    decreases n, k
+{
+    let cur = node_list(srcs, base, i, n, k);
+    if k > 0 && n < srcs.len() {
+        let prev = node_list(srcs, base, i, n, k - 1);
+        if m == n && j == k - 1 { assert(cur[prev.len() as int] == (sub, chan_id(srcs, base, m, j))); }
+        else {
+            node_list_complete(srcs, base, i, n, k - 1, m, j, sub);
+            let p = choose|p: int| 0 <= p < prev.len() && #[trigger] prev[p] == (sub, chan_id(srcs, base, m, j));
+            assert(cur[p] == prev[p]);
+        }
+    } else if n > 0 && k <= 0 {
+        node_list_complete(srcs, base, i, n - 1, srcs[n - 1].len() as int, m, j, sub);
+    }
+}
+// the same two facts for a leaf's list                                                                          //# O-E-wiring-leaf [C03,C05,C01]
+proof fn leaf_list_sound(srcs: Seq<Seq<SourceIndex>>, base: int, l: int, n: int, k: int, p: int)
+    requires pos_ok(srcs, n, k), 0 <= p < leaf_list(srcs, base, l, n, k).len()
+    ensures exists|m: int, j: int| slot_before(srcs, m, j, n, k) && is_leaf(#[trigger] srcs[m][j], l) && leaf_list(srcs, base, l, n, k)[p] == chan_id(srcs, base, m, j)
+    decreases n, k
+{
+    let cur = leaf_list(srcs, base, l, n, k);
+    if k > 0 && n < srcs.len() {
+        let prev = leaf_list(srcs, base, l, n, k - 1);
+        if p < prev.len() {
+            leaf_list_sound(srcs, base, l, n, k - 1, p);
+            let (m, j) = choose|m: int, j: int| slot_before(srcs, m, j, n, k - 1) && is_leaf(#[trigger] srcs[m][j], l) && prev[p] == chan_id(srcs, base, m, j);
+            assert(cur[p] == prev[p]);
+            assert(slot_before(srcs, m, j, n, k) && is_leaf(srcs[m][j], l));
+        } else {
+            assert(slot_before(srcs, n, k - 1, n, k) && is_leaf(srcs[n][k - 1], l));
+        }
+    } else if n > 0 && k <= 0 {
+        leaf_list_sound(srcs, base, l, n - 1, srcs[n - 1].len() as int, p);
+        let prev = leaf_list(srcs, base, l, n - 1, srcs[n - 1].len() as int);
+        let (m, j) = choose|m: int, j: int| slot_before(srcs, m, j, n - 1, srcs[n - 1].len() as int) && is_leaf(#[trigger] srcs[m][j], l) && prev[p] == chan_id(srcs, base, m, j);
+        assert(slot_before(srcs, m, j, n, k) && is_leaf(srcs[m][j], l));
+    }
+}
+proof fn leaf_list_complete(srcs: Seq<Seq<SourceIndex>>, base: int, l: int, n: int, k: int, m: int, j: int)
+    requires pos_ok(srcs, n, k), slot_before(srcs, m, j, n, k), is_leaf(srcs[m][j], l)
+    ensures exists|p: int| 0 <= p < leaf_list(srcs, base, l, n, k).len() && #[trigger] leaf_list(srcs, base, l, n, k)[p] == chan_id(srcs, base, m, j)
+    decreases n, k
+{
+    let cur = leaf_list(srcs, base, l, n, k);
+    if k > 0 && n < srcs.len() {
+        let prev = leaf_list(srcs, base, l, n, k - 1);
+        if m == n && j == k - 1 { assert(cur[prev.len() as int] == chan_id(srcs, base, m, j)); }
+        else {
+            leaf_list_complete(srcs, base, l, n, k - 1, m, j);
+            let p = choose|p: int| 0 <= p < prev.len() && #[trigger] prev[p] == chan_id(srcs, base, m, j);
+            assert(cur[p] == prev[p]);
+        }
+    } else if n > 0 && k <= 0 {
+        leaf_list_complete(srcs, base, l, n - 1, srcs[n - 1].len() as int, m, j);
+    }
+}
 } // verus!
 fn main() {}
